@@ -120,7 +120,9 @@ class Constant(Leaf):
 
     def __post_init__(self):
         super().__post_init__()
-        self.literal = self.literal or self.ast
+        if (self.literal is None or self.literal == '') and self.ast is not None:
+            # keep falsy literals (0, False) given explicitly, e.g. when loading from JSON
+            self.literal = self.ast
 
     def _parse(self, ctx: Ctx) -> Any:
         return ctx.constant(self.literal)
